@@ -5,7 +5,10 @@ C21 line-protocol driver (also provides the parsing / rendering shared with C20 
 
 Tokens: byte strings are hex (`-` = empty) or `big:<n>:<seed>` (a large generated value, kept abstract);
 lists are comma separated, `_` = empty list; a transfer is `value/children/lease`, transfers are joined by `|`.
-State text: `key=value/children(sorted)/lease` for every listed key with any datum, joined by `;`, `-` if none.
+State text: `key=value/children(sorted)/lease` for every listed key with any datum, joined by `;`, `-` if none;
+a live lease token (a wall-clock deadline in the future) is written `L`.
+Lease calls (never logged): `acq k ttl_ms`, `ren k ttl_ms tok`, `rel k tok` with `tok` = `cur` (the token the
+store currently holds for `k`) or a number; results `ok | invalid-ttl | lease-conflict | lease-expired`.
 -/
 namespace Specter.Aof.Proto
 open Specter.Util Specter.Aof
@@ -31,7 +34,8 @@ def parseList (s : String) : Option (List Bytes) :=
 def parseTransfer (s : String) : Option Transfer :=
   match s.splitOn "/" with
   | [v, cs, l] =>
-    match parseBytes v, parseList cs, l.toNat? with
+    -- `L` = a live lease token (a deadline in the future; the exact nanosecond value is immaterial)
+    match parseBytes v, parseList cs, (if l = "L" then some liveTok else l.toNat?) with
     | some v, some cs, some l => some { value := v, children := cs, lease := l }
     | _, _, _ => none
   | _ => none
@@ -50,7 +54,8 @@ def renderEntry (k : Bytes) (e : Entry) : Option String :=
   else
     let cs := sortStrings (e.children.map renderBytes)
     let cs := if cs.isEmpty then "_" else ",".intercalate cs
-    some s!"{renderBytes k}={renderBytes e.val}/{cs}/{e.lease}"
+    let l := if e.lease ≥ liveMin then "L" else toString e.lease
+    some s!"{renderBytes k}={renderBytes e.val}/{cs}/{l}"
 
 def renderMem (keys : List Bytes) (m : Mem) : String :=
   let parts := keys.filterMap (fun k => renderEntry k (m.get k))
@@ -67,6 +72,35 @@ def parseMutation (toks : List String) : Option Mutation :=
   | ["rmk", ks] => do some { type := tRemoveKeys, keys := ← parseList ks }
   | _ => none
 
+def parseTok (s : String) : Option (Option Nat) :=
+  if s = "cur" then some none else s.toNat?.map some
+
+/-- parse a lease call (volatile: goes to memory only) -/
+def parseVolatile (toks : List String) : Option VOp :=
+  match toks with
+  | ["acq", k, ttl] => do some (.acquire (← parseBytes k) (decide ((← ttl.toNat?) ≥ 1000)))
+  | ["ren", k, ttl, t] => do some (.renew (← parseBytes k) (decide ((← ttl.toNat?) ≥ 1000)) (← parseTok t))
+  | ["rel", k, t] => do some (.release (← parseBytes k) (← parseTok t))
+  | _ => none
+
+def renderVErr : Option VErr → String
+  | none => "ok"
+  | some .invalidTTL => "invalid-ttl"
+  | some .conflict => "lease-conflict"
+  | some .expired => "lease-expired"
+
+/-- the part of a state text the property statement speaks about: simple value and prefix children of
+every key (the lease column is dropped; a key with neither value nor children is not listed) -/
+def dataOf (snap : String) : String :=
+  let parts := (snap.splitOn ";").filterMap fun p =>
+    match p.splitOn "/" with
+    | [kv, cs, _] =>
+      match kv.splitOn "=" with
+      | [_, v] => if v = "-" ∧ cs = "_" then none else some s!"{kv}/{cs}"
+      | _ => some p
+    | _ => if p = "-" ∨ p = "" then none else some p
+  ";".intercalate parts
+
 def renderErr : Option Err → String
   | none => "ok"
   | some .conflict => "conflict"
@@ -80,6 +114,7 @@ open Specter.Util Specter.Aof Specter.Aof.Proto
 structure St where
   store : Store := {}
   lastSnap : String := ""      -- implementation's live snapshot taken before the stop
+  vol : Bool := false          -- a lease call (volatile by design) happened since the last (re)open
 deriving Inhabited
 
 def step (st : St) (toks : List String) (rhs : String) : St × Verdict :=
@@ -95,17 +130,25 @@ def step (st : St) (toks : List String) (rhs : String) : St × Verdict :=
     match parseList ks with
     | none => (st, .bad "reopen keys")
     | some keys =>
-      -- property statement: a clean restart succeeds and yields exactly the data seen before the stop
-      let specBad := rhs = "error" ∨ rhs ≠ st.lastSnap
+      -- property statement: a clean restart succeeds and yields exactly the data seen before the stop:
+      -- simple values and prefix children always; the lease column too unless lease calls (volatile by
+      -- design, never logged) happened since the store was opened — then it is compared with the model
+      let specBad := rhs = "error" ∨ rhs = "panic" ∨ dataOf rhs ≠ dataOf st.lastSnap ∨
+        (¬ st.vol ∧ rhs ≠ st.lastSnap)
       match st.store.reopen with
       | .ok s' =>
         let m := renderMem keys s'.mem
-        ({ st with store := s' },
+        ({ st with store := s', vol := false },
           if specBad then .spec s!"restart changed the data: before={st.lastSnap}"
           else if m = rhs then .ok else .diff m)
       | .error _ =>
         (st, if specBad then .spec s!"restart changed the data: before={st.lastSnap}" else .diff "error")
   | _ =>
+    match parseVolatile toks with
+    | some op =>
+      let (s', r) := st.store.volatile op
+      ({ st with store := s', vol := true }, if renderVErr r = rhs then .ok else .diff (renderVErr r))
+    | none =>
     match parseMutation toks with
     | none => (st, .bad "unknown op")
     | some mu =>
